@@ -52,7 +52,7 @@ P = {
          'algebraic proof over the reals on the executed model + bit-exact correspondence inside real runs',
          'The float formula / floor clauses are tied (bit-exact) but not proved; libm pow only through recorded values.'),
  'C09': ('Bisection correctness of the model\'s upper_bound for every numeric type with order laws; over the reals channel i is selected iff u lies in the i-th cumulative interval of length w_i/sum; '
-         'for every IEEE format (Flocq, monotone rounding) the selected index is valid and never a zero-weight channel for every u in [0,1) incl. 0 and pred(1), and (Properties_C09f) every selection interval has length w_i/sum up to (n+1) units of roundoff.',
+         'for every IEEE format (Flocq, monotone rounding) the selected index is valid and never a zero-weight channel for every u in [0,1) incl. 0 and pred(1), and (Properties_C09f) every selection interval has length w_i/sum up to (n+1) units of roundoff; the oracle is also evaluated on clang++ -mfma (contraction) and g++ -ffast-math builds.',
          'order-law-generic bisection proof + Flocq monotonicity proof; boundary-exhaustive correspondence',
          'libstdc++ upper_bound / partial_sum / generate_canonical are modelled (validated by the tie).'),
  'C10': ('Law-generic theorems: an iteration of N calls advances the generator by exactly N x d (N x (d+1) multi-channel) canonical numbers whatever the integrand returns; the stored generator is '
@@ -87,15 +87,15 @@ P = {
          'induction over calls on event traces of the iteration model; event-log correspondence incl. buffer identity',
          'Object lifetime / aliasing of the point classes is visible only to the harness checks (buffer identity events).'),
  'C18': ('File-system model theorems: for any text, any chunking into writes and any crash point (between operations or inside a write) the final name holds the previous or the complete new text; whole runs; '
-         'the in-place variant is refuted; composed with the codec and resume theorems (Properties_C18r): in every crash state the file is untouched or holds the text of a checkpoint of the run, which loads, and running the remaining calls reproduces the final text; fault sequences (Properties_C18f): any sequence of invocations that complete, whose open of the temporary fails, or whose write / close / rename fails after arbitrary pieces, killed anywhere, leaves the text of the last completed invocation, and an in-place fallback is refuted. The real system calls are recorded and compared with the model\'s operation list; the real process is killed at every operation and inside writes, system calls are made to fail (open / write / close / rename) and the process killed afterwards, the file inspected and the run resumed.',
+         'the in-place variant is refuted; composed with the codec and resume theorems (Properties_C18r): in every crash state the file is untouched or holds the text of a checkpoint of the run, which loads, and running the remaining calls reproduces the final text; fault sequences (Properties_C18f): any sequence of invocations that complete, whose open of the temporary fails, or whose write / close / rename fails after arbitrary pieces, killed anywhere, leaves the text of the last completed invocation, and an in-place fallback is refuted. The real system calls are recorded and compared with the model\'s operation list; the real process is killed at every operation and inside writes, system calls are made to fail (open / write / close / rename, short writes followed by a full disk) and the process killed afterwards, the file inspected and the run resumed; four runs at once in different threads, each with its own file (ordinary and ThreadSanitizer builds).',
          'crash-prefix invariant over an operation-list model with fault outcomes + LD_PRELOAD system-call correspondence + kill and fault enumeration',
          'POSIX rename atomicity and kill semantics are assumptions; no power-loss model.'),
  'C19': ('Law-generic theorems: iteration k+1 samples with refine(state_k, adjustment_k) under the checkpoint\'s parameters, result k records the state its points were drawn with, iteration 0 uses the user\'s '
-         '(normalised) state or the uniform default; every event of an iteration is a point of that recorded state; supplement Properties_C19m: the same threading on every rank of the MPI drivers.',
+         '(normalised) state or the uniform default; every event of an iteration is a point of that recorded state; supplement Properties_C19m: the same threading on every rank of the MPI drivers; a self-checking C++-only stage drives VEGAS through the user's own loop (pdf, vegas_iteration, add, rollback) and through a callback that discards an iteration.',
          'induction over the run model + bit-exact correspondence of states and points (serial, resumed)',
          ''),
  'C20': ('Theorems: the drivers depend on the callback only through its answers, which are mode-free; index safety of the summary printers for every weight vector (sorted channel permutation, all printed indices in range, '
-         'ranges cover exactly the minimal-weight channels, pairwise maximum defined); supplement Properties_C20m: MPI drivers and mpi_callback; real runs in all four modes are compared with each other and with the model, summary skeletons parsed from the real output; the four modes are also run under a hostile process environment (missing locale named by LC_ALL, decimal-comma global C++ locale).',
+         'ranges cover exactly the minimal-weight channels, pairwise maximum defined); supplement Properties_C20m: MPI drivers and mpi_callback; real runs in all four modes are compared with each other and with the model, summary skeletons parsed from the real output; the four modes are also run under a hostile process environment (missing locale named by LC_ALL, decimal-comma global C++ locale) and four at once in different threads (ordinary and ThreadSanitizer builds).',
          'structural proofs about the callback / summary model + four-mode correspondence and summary skeleton comparison',
          'Mode independence of the decision is true by construction of the model; its substance is carried by the correspondence.'),
 }
